@@ -125,12 +125,12 @@ def check(ctx):
     ctx.samples.append({"calls": [script[1], script[len(script) // 2], script[-1]]})
     t = ctx.drive(drv, script, "text")
     bad = ctx.judge("TextUtilTrace", [t], shards=16)
+    for b in bad: b["driver"] = "drv_text"
     # the second build configuration (size-optimised, plain char unsigned) on part of the executions
     ta = ctx.drive(build(ctx, alt=True), core.subset_executions(script, ctx.seed, 1.0 if ctx.thorough else 0.34), "text_alt")
     bada = ctx.judge("TextUtilTrace", [ta], shards=16)
     for b in bada: b["driver"] = "drv_text@alt"
     bad += bada
-    for b in bad: b["driver"] = "drv_text"
     ctx.report(bad)
     ctx.assumptions += [
         "buffer-taking APIs (split, split_cmdargs, trim, memmem, replace_substrings, argvc_internal_split_n) receive exactly sized, non-terminated heap blocks; C-string APIs receive exactly sized terminated blocks; ASan observes reads/writes outside them",
